@@ -14,6 +14,18 @@
    state reached by a fault-free history with process stops anywhere has it,
    C07K_LIx_reach).
 
+   SCOPE. The model is sequential: one request (or other hop) at a time; a process stop
+   occurs only INSIDE a request step (Hist.step has no crash point in waits, purges,
+   user-wide calls), after some number n of the step's persistence calls. Nothing
+   here is about concurrent requests.
+
+   no_deletes. The theorems of (b) and (d) ask that the events the stop KEEPS - the
+   first n persistence calls, ev_prefix (events of the completed step) n - contain
+   no deletion (the _pre forms): the stop precedes any Destroy, invalidation by Start
+   or clean-up the step would go on to make (what comes after the stop never
+   happened). The forms without _pre ask it of the whole completed step and are
+   corollaries.
+
    PROVED
    (a) C10K_no_dangling_any - "at no crash point does the store hold a replaced-ID
        record that points at an ID which does not exist", in full: a replaced-ID
@@ -24,6 +36,13 @@
        it. Never an ID the step drew and has not saved yet (C10K_no_dangling_fresh):
        RegenerateID saves the new ID before the reference under the old one, in
        every operation that changes the ID (C10K_nd_regenerate .. C10K_nd_script).
+       C10K_no_dangling_any is RELATIVE to the pre-state (the gone_in disjunct: a
+       reference that was already dangling before the step is allowed, since the
+       theorem starts from an arbitrary LIx state). The ABSOLUTE form holds along
+       histories: C10K_no_dangling_reach_abs - in every state reached by a fault-free
+       history with stops anywhere, every replaced-ID record names an ID that is
+       stored or has been deleted (nd_ok of RefreshUser and PurgeSessions added:
+       C10K_nd_refresh_user, C10K_nd_purge).
    (b) C10K_presented_resolves_any - structure: every chain k0 -> .. -> kn of
        replaced-ID records ending at a session record in the store before the step
        (in particular the one the client's ID heads) still resolves in the store
@@ -38,7 +57,8 @@
        C10K_presented_resolves_any says where the record at the end comes from.
    (c) C10K_completed_new_id - the step run to completion (no Destroy): the ID of
        the handler's session at the end is stored as a session's record (with
-       C07K_late_step: also after a stop behind the last persistence call).
+       C07K_late_step: also after a stop behind the last persistence call). It says
+       NOTHING about the data or the user of that record.
 
    (b, content) C10K_presented_data_any - the DATA of the record that the presented ID
        resolves to after the stop is the data the store held under the session's ID
@@ -78,7 +98,7 @@ From Sessions Require Import Model.Base Model.Sess Model.Hist Model.Corr Proofs.
   Proofs.HistInv Proofs.HistInv2 Proofs.HistInv3 Proofs.HistLift Proofs.HistLift3 Proofs.HistLift4 Proofs.HistLiftB
   Proofs.LineageB Proofs.LineageK Proofs.LineageK2 Proofs.LineageK3 Proofs.LineageF
   Proofs.CrashAny Proofs.CrashAny2 Proofs.CrashAny3 Proofs.CrashAny4 Proofs.CrashAny5 Proofs.CrashAny6 Proofs.CrashAny7
-  Proofs.CrashAny8 Proofs.CrashAny9 Proofs.CrashAny10 Proofs.CrashAny11 Proofs.CrashAnyEx.
+  Proofs.CrashAny8 Proofs.CrashAny9 Proofs.CrashAny10 Proofs.CrashAny11 Proofs.CrashAny12 Proofs.CrashAnyEx.
 From Sessions Require Proofs.CrashFault Proofs.CrashFault2 Proofs.CrashFault3 Proofs.CrashChain Proofs.CrashRestart.
 
 (* ------------------------------------------------------- the notions *)
@@ -193,7 +213,7 @@ Proof. exact resolves_chain_stop. Qed.
    point of a step that deletes nothing; nothing stored disappears *)
 Theorem C10K_edge_kept :
   forall w r n, LIx (w_st w) -> rq_plan r = [] -> rq_crash r = Some n ->
-  no_deletes (ob_evs (snd (step w (HReq (nocrash r))))) ->
+  no_deletes (ev_prefix (ob_evs (snd (step w (HReq (nocrash r))))) n) ->
   forall k rk t, lookup (store (w_st w)) k = Some rk -> r_ref rk = Some t ->
   exists rk', lookup (store (w_st (fst (step w (HReq r))))) k = Some rk' /\ r_ref rk' = Some t.
 Proof. exact edge_kept. Qed.
@@ -352,6 +372,108 @@ Theorem C10K_restart_presented_reach :
     (CrashFault3.dat rc = CrashFault3.dat rn \/ In (CrashFault3.dat rc) (script_data d0 (rq_script r))).
 Proof. exact restart_presented_reach. Qed.
 
+(* ------------------------------------------------------- the _pre forms: only the events the stop keeps *)
+
+Theorem C10K_no_deletes_prefix : forall l n, no_deletes l -> no_deletes (ev_prefix l n).
+Proof. exact no_deletes_prefix. Qed.
+
+(* ndp l: the events of l before its first deletion *)
+Theorem C10K_ndp_meaning :
+  ndp [] = [] /\ forall e t, ndp (e :: t) = if CrashFault.is_delete e then [] else e :: ndp t.
+Proof. split; reflexivity. Qed.
+
+Theorem C10K_presented_resolves_pre :
+  forall w r n k0 rest,
+  LIx (w_st w) -> graves_drawn (w_st w) -> rq_plan r = [] -> rq_crash r = Some n ->
+  no_deletes (ev_prefix (ob_evs (snd (step w (HReq (nocrash r))))) n) ->
+  CrashChain.spath (fun _ => True) (store (w_st w)) k0 rest ->
+  exists tl rend,
+    CrashChain.spath (fun _ => True) (store (w_st (fst (step w (HReq r))))) k0 (rest ++ tl) /\
+    Forall (fresh_from_n (supply (w_st w))) tl /\
+    lookup (store (w_st (fst (step w (HReq r))))) (last (rest ++ tl) k0) = Some rend /\ r_ref rend = None /\
+    (lookup (store (w_st w)) (last (rest ++ tl) k0) = Some rend \/
+     In (EvSave (last (rest ++ tl) k0) rend true) (ev_prefix (ob_evs (snd (step w (HReq (nocrash r))))) n)).
+Proof. exact chain_resolves_stop_record_pre. Qed.
+
+(* every save of a step BEFORE ITS FIRST DELETION *)
+Theorem C10K_step_saves_data_pre :
+  forall b (S : key -> Prop) (PSd : list (N * N) -> Prop) w r k0 d0,
+  LIb b (w_st w) -> rq_plan r = [] -> presents w r = CKey k0 -> lookup (store (w_st w)) k0 <> None ->
+  CrashFault2.J (KC S PSd) (w_st w) ->
+  (forall id0 rc0, ob_start (snd (step w (HReq (nocrash r)))) = Some (id0, rc0) -> r_data rc0 = Some d0) ->
+  (forall x, In x (script_data d0 (rq_script r)) -> PSd x) ->
+  Forall (ELC S PSd) (ndp (ob_evs (snd (step w (HReq (nocrash r)))))).
+Proof. exact step_saves_data_pre. Qed.
+
+Theorem C10K_presented_data_pre :
+  forall w r n k0 rest rn d0,
+  LIx (w_st w) -> graves_drawn (w_st w) -> rq_plan r = [] -> rq_crash r = Some n ->
+  no_deletes (ev_prefix (ob_evs (snd (step w (HReq (nocrash r))))) n) ->
+  presents w r = CKey k0 ->
+  CrashChain.spath (fun _ => True) (store (w_st w)) k0 rest ->
+  lookup (store (w_st w)) (last rest k0) = Some rn ->
+  (forall o ob, In (last rest k0, o) (cache (w_st w)) -> hget (w_st w) o = Some ob -> r_ref (o_rec ob) = None ->
+     CrashFault3.dat (o_rec ob) = CrashFault3.dat rn) ->
+  (forall id0 rc0, ob_start (snd (step w (HReq (nocrash r)))) = Some (id0, rc0) -> r_data rc0 = Some d0) ->
+  CrashChain.resolves_chain
+    (fun rd => CrashFault3.dat rd = CrashFault3.dat rn \/ In (CrashFault3.dat rd) (script_data d0 (rq_script r)))
+    (store (w_st (fst (step w (HReq r))))) k0.
+Proof. exact presented_data_pre. Qed.
+
+Theorem C10K_presented_data_reach_pre :
+  forall c hs r n k0 rest rn d0,
+  Forall ff_hop hs -> rq_plan r = [] -> rq_crash r = Some n ->
+  no_deletes (ev_prefix (ob_evs (snd (step (reach c hs) (HReq (nocrash r))))) n) ->
+  presents (reach c hs) r = CKey k0 ->
+  CrashChain.spath (fun _ => True) (store (w_st (reach c hs))) k0 rest ->
+  lookup (store (w_st (reach c hs))) (last rest k0) = Some rn ->
+  (forall o ob, In (last rest k0, o) (cache (w_st (reach c hs))) -> hget (w_st (reach c hs)) o = Some ob -> r_ref (o_rec ob) = None ->
+     CrashFault3.dat (o_rec ob) = CrashFault3.dat rn) ->
+  (forall id0 rc0, ob_start (snd (step (reach c hs) (HReq (nocrash r)))) = Some (id0, rc0) -> r_data rc0 = Some d0) ->
+  CrashChain.resolves_chain
+    (fun rd => CrashFault3.dat rd = CrashFault3.dat rn \/ In (CrashFault3.dat rd) (script_data d0 (rq_script r)))
+    (store (w_st (fst (step (reach c hs) (HReq r))))) k0.
+Proof. exact presented_data_reach_pre. Qed.
+
+Theorem C10K_restart_presented_pre :
+  forall w r n k0 rest rn d0 r2,
+  LIx (w_st w) -> graves_drawn (w_st w) -> rq_plan r = [] -> rq_crash r = Some n ->
+  no_deletes (ev_prefix (ob_evs (snd (step w (HReq (nocrash r))))) n) ->
+  presents w r = CKey k0 ->
+  CrashChain.spath (fun _ => True) (store (w_st w)) k0 rest ->
+  lookup (store (w_st w)) (last rest k0) = Some rn ->
+  (forall o ob, In (last rest k0, o) (cache (w_st w)) -> hget (w_st w) o = Some ob -> r_ref (o_rec ob) = None ->
+     CrashFault3.dat (o_rec ob) = CrashFault3.dat rn) ->
+  (forall id0 rc0, ob_start (snd (step w (HReq (nocrash r)))) = Some (id0, rc0) -> r_data rc0 = Some d0) ->
+  let w' := fst (step w (HReq r)) in
+  rq_plan r2 = [] -> rq_crash r2 = None -> presents w' r2 = CKey k0 ->
+  (forall rk, lookup (store (w_st w')) k0 = Some rk ->
+     CrashRestart.probe_ok (conf (w_st w')) (now (w_st w')) (mkReq (CKey k0) (rq_create r2) (rq_addr r2) (rq_ua r2)) rk) ->
+  ob_res (snd (step w' (HReq r2))) = RSess /\
+  exists id rc, ob_start (snd (step w' (HReq r2))) = Some (id, rc) /\ r_ref rc = None /\
+    (CrashFault3.dat rc = CrashFault3.dat rn \/ In (CrashFault3.dat rc) (script_data d0 (rq_script r))).
+Proof. exact restart_presented_pre. Qed.
+
+(* ------------------------------------------------------- (a) absolute, along histories *)
+
+Theorem C10K_nd_refresh_user :
+  forall b X0 base s u s' r, Gb b Q0 base s -> refresh_user s u = (s', r) -> nd_ok X0 s s'.
+Proof. exact nd_refresh_user. Qed.
+
+Theorem C10K_nd_purge : forall b X0 base s, Gb b Q0 base s -> nd_ok X0 s (purge s).
+Proof. exact nd_purge. Qed.
+
+Theorem C10K_no_dangling_step_abs :
+  forall w h, LIx (w_st w) -> NoDang (fun _ => False) (store (w_st w), graves (w_st w)) -> ff_hop h ->
+  NoDang (fun _ => False) (store (w_st (fst (step w h))), graves (w_st (fst (step w h)))).
+Proof. exact NDabs_step. Qed.
+
+Theorem C10K_no_dangling_reach_abs :
+  forall c hs, Forall ff_hop hs ->
+  forall k r t, lookup (store (w_st (reach c hs))) k = Some r -> r_ref r = Some t ->
+    lookup (store (w_st (reach c hs))) t <> None \/ lookup (graves (w_st (reach c hs))) t <> None.
+Proof. exact no_dangling_reach_abs. Qed.
+
 (* ------------------------------------------------------- (c) the completed step *)
 
 Theorem C10K_completed_new_id :
@@ -430,6 +552,17 @@ Print Assumptions C10K_LIg_reach.
 Print Assumptions C10K_probe_ok_meaning.
 Print Assumptions C10K_restart_presented.
 Print Assumptions C10K_restart_presented_reach.
+Print Assumptions C10K_no_deletes_prefix.
+Print Assumptions C10K_ndp_meaning.
+Print Assumptions C10K_presented_resolves_pre.
+Print Assumptions C10K_step_saves_data_pre.
+Print Assumptions C10K_presented_data_pre.
+Print Assumptions C10K_presented_data_reach_pre.
+Print Assumptions C10K_restart_presented_pre.
+Print Assumptions C10K_nd_refresh_user.
+Print Assumptions C10K_nd_purge.
+Print Assumptions C10K_no_dangling_step_abs.
+Print Assumptions C10K_no_dangling_reach_abs.
 Print Assumptions C10K_completed_new_id.
 (* non-vacuity (Proofs/CrashAnyEx.v): a step with script [Set; RegenerateID; Set; LogIn;
    Delete] presenting a replaced ID, stopped after every number of its 9 calls *)
@@ -443,3 +576,6 @@ Print Assumptions ca_script_data.
 Print Assumptions ca_data_theorem.
 Print Assumptions ca_restart_answers.
 Print Assumptions ca_restart_theorem.
+(* a step that goes on to Destroy, stopped before the deletion: the _pre form applies *)
+Print Assumptions ca_destroy_log.
+Print Assumptions ca_destroy_pre.
